@@ -179,7 +179,11 @@ func (c *vfConn) ReadFrom() (ndp.Message, *ipv6.ControlMessage, netip.Addr, erro
 	}
 	select {
 	case m := <-c.inbox:
-		c.w.rec.emit("in", "k", c.k, "kind", m.kind, "src", vfSrcName(m.from), "hl", m.hl, "tag", m.tag)
+		if ra, ok := m.m.(*ndp.RouterAdvertisement); ok && c.w.fullRA {
+			c.w.rec.emit("in", "k", c.k, "kind", m.kind, "src", vfSrcName(m.from), "hl", m.hl, "tag", m.tag, "ra", vfAbsRA(ra))
+		} else {
+			c.w.rec.emit("in", "k", c.k, "kind", m.kind, "src", vfSrcName(m.from), "hl", m.hl, "tag", m.tag)
+		}
 		if m.err != nil {
 			return nil, nil, netip.Addr{}, m.err
 		}
@@ -278,6 +282,7 @@ func (s vfState) SetIPv6Autoconf(ifi string, enable bool) error {
 // vfMetrics implements metricslite.Interface, records every update as an event
 // and runs the const scrape only when the driver asks for it.
 type vfMetrics struct {
+	onUpdate func(name string, labels []string, v float64) // capture instead of emitting events
 	w      *vfWorld
 	mu     sync.Mutex
 	vals   map[string]float64
@@ -299,6 +304,10 @@ func (m *vfMetrics) Counter(name, _ string, _ ...string) metricslite.Counter {
 		k := vfKey(name, labels)
 		m.vals[k] += v
 		m.mu.Unlock()
+		if m.onUpdate != nil {
+			m.onUpdate(name, labels, v)
+			return
+		}
 		m.w.rec.emit("cnt", "name", name, "labels", strings.Join(labels, "|"), "v", v, "kind", "counter")
 	}
 }
@@ -308,6 +317,10 @@ func (m *vfMetrics) Gauge(name, _ string, _ ...string) metricslite.Gauge {
 		m.mu.Lock()
 		m.vals[vfKey(name, labels)] = v
 		m.mu.Unlock()
+		if m.onUpdate != nil {
+			m.onUpdate(name, labels, v)
+			return
+		}
 		m.w.rec.emit("cnt", "name", name, "labels", strings.Join(labels, "|"), "v", v, "kind", "gauge")
 	}
 }
